@@ -2,6 +2,7 @@ package termunicode
 
 import (
 	"io"
+	"math/bits"
 	"rare/pkg/color"
 	"rare/pkg/multiterm/termscaler"
 )
@@ -53,11 +54,22 @@ func barWriteRunes(w io.StringWriter, blockChar rune, val, maxVal, maxLen int64)
 		val = maxVal
 	}
 
-	blocks := val * maxLen / maxVal
+	blocks := mulDiv(val, maxLen, maxVal)
 	for blocks > 0 {
 		w.WriteString(string(blockChar))
 		blocks--
 	}
+}
+
+// mulDiv returns val*maxLen/maxVal for 0 <= val <= maxVal without overflowing
+// int64 in the multiplication (values above MaxInt64/maxLen); 0 for val <= 0
+func mulDiv(val, maxLen, maxVal int64) int64 {
+	if val <= 0 || maxLen <= 0 {
+		return 0
+	}
+	hi, lo := bits.Mul64(uint64(val), uint64(maxLen))
+	quo, _ := bits.Div64(hi, lo, uint64(maxVal))
+	return int64(quo)
 }
 
 // Write a bar, possibly with partial runes. Not to be used with stacking
